@@ -537,6 +537,45 @@ def install():
     os.fsync = s_fsync
     os.fchmod = s_fchmod
 
+    # ---- advisory file locks: a blocking flock/lockf would park a simulated process inside the
+    # kernel, where the scheduler cannot see it (every other process is parked too: deadlock).  A
+    # blocking request becomes a loop of scheduling points ("lock-wait") around the non-blocking
+    # call, so who gets the lock next is the Decider's choice like everything else.
+    try:
+        import fcntl as _fcntl
+    except ImportError:  # pragma: no cover
+        _fcntl = None
+    if _fcntl is not None and "flock" not in R:
+        R["flock"] = _fcntl.flock
+        R["lockf"] = _fcntl.lockf
+
+        def _lock(name, fd, op, *a):
+            c = CTX
+            real = R[name]
+            if c is None or c.depth:
+                return real(fd, op, *a)
+            n = fd if isinstance(fd, int) else fd.fileno()
+            p = c.fds.get(n) or os.path.join(c.root, "fd-%d" % n)
+            if op & (_fcntl.LOCK_UN | _fcntl.LOCK_NB):
+                return c.call("unlock" if op & _fcntl.LOCK_UN else "lock-try", p, real, fd, op, *a)
+            for _ in range(4000):
+                c.before("lock-wait", p)
+                try:
+                    with c.real():
+                        real(fd, op | _fcntl.LOCK_NB, *a)
+                except (BlockingIOError, PermissionError) as e:
+                    c.after("lock-wait", p, e, performed=False)
+                    continue
+                except BaseException as e:
+                    c.after("lock-wait", p, e)
+                    raise
+                c.after("lock-wait", p)
+                return None
+            return real(fd, op, *a)  # never obtained: let the watchdog report the hang
+
+        _fcntl.flock = lambda fd, op: _lock("flock", fd, op)
+        _fcntl.lockf = lambda fd, op, *a: _lock("lockf", fd, op, *a)
+
     # ---- shutil copies, decomposed: open destination / copy data (may be partial) / metadata
     def make_copy(name, meta):
         real = R[name]
